@@ -94,6 +94,14 @@ def build_tree(fp_kind, ei, f_l, f_e, c_l, c_e, a_l, a_e, al_l, al_e, ds_l, ds_e
     c.set_member("al", Alias("al", "other.mod.thing", lineno=opt(al_l), endlineno=opt(al_e)))
     mod.set_member("y", Attribute("y", lineno=opt(a_l), endlineno=opt(a_e), value=None, annotation=None))
     mod.set_member("imp", Alias("imp", "pkg.sub.name", lineno=opt(al_l), endlineno=opt(al_e)))
+    # a RESOLVED chain of re-exports: re1 -> re2 -> f (serialisation must keep each alias's own target path)
+    from _griffe.collections import ModulesCollection
+
+    col = ModulesCollection()
+    col.set_member("m", mod)
+    mod.set_member("re2", Alias("re2", "m.f", lineno=opt(al_l), endlineno=opt(al_e)))
+    mod.set_member("re1", Alias("re1", "m.re2", lineno=opt(al_l), endlineno=opt(al_e)))
+    mod.members["re1"].final_target  # noqa: B018  (resolves both links)
     return mod
 
 
@@ -212,7 +220,7 @@ GROUPS = {
     "function": (("f_l", "f_e", "labels"), [_IDX["Name"], _IDX["Attribute"]], 2, ("f",)),
     "class": (("c_l", "c_e"), [_IDX["Name"]], 1, ("C",)),
     "attribute": (("a_l", "a_e"), [_IDX["Name"]], 1, ("C.x", "y")),
-    "aliases": (("al_l", "al_e"), [_IDX["Name"]], 1, ("imp", "C.al")),
+    "aliases": (("al_l", "al_e"), [_IDX["Name"]], 1, ("imp", "C.al", "re1")),
     "docstrings": (("has_doc", "ds_l", "ds_e", "doc"), [_IDX["Name"]], 1, ("f",)),
     "expressions": (("pkind",), list(range(len(MENU))), tiered(4, 2), ("f", "C.x")),
 }
